@@ -174,7 +174,9 @@ func (s *Service) parseAddress(address string) error {
 
 	switch s.protocol {
 	case "unix":
-		break
+		if s.address == "" {
+			return fmt.Errorf("Invalid address")
+		}
 	case "tcp":
 		break
 
@@ -195,7 +197,7 @@ func (s *Service) GetListener() (net.Listener, error) {
 func (s *Service) setListener(ctx context.Context) error {
 	l := activationListener()
 	if l == nil {
-		if s.protocol == "unix" && s.address[0] != '@' {
+		if s.protocol == "unix" && !strings.HasPrefix(s.address, "@") {
 			os.Remove(s.address)
 		}
 
@@ -205,7 +207,7 @@ func (s *Service) setListener(ctx context.Context) error {
 			return err
 		}
 
-		if s.protocol == "unix" && s.address[0] != '@' {
+		if s.protocol == "unix" && !strings.HasPrefix(s.address, "@") {
 			l.(*net.UnixListener).SetUnlinkOnClose(true)
 		}
 	}
@@ -239,7 +241,9 @@ func (s *Service) Bind(ctx context.Context, address string) error {
 	}
 	s.mutex.Unlock()
 
-	s.parseAddress(address)
+	if err := s.parseAddress(address); err != nil {
+		return err
+	}
 
 	err := s.setListener(ctx)
 	if err != nil {
